@@ -837,7 +837,8 @@ struct Node {
     next: Option<ActorRef<Node>>,
 }
 struct SetNext(Option<ActorRef<Node>>);
-struct Hop(u64);
+/// (hops still to go, busy iterations before asking on - sweeps the alignment between concurrently asking handlers)
+struct Hop(u64, u64);
 
 impl Actor for Node {
     type Args = ();
@@ -855,8 +856,11 @@ impl Node {
     }
     #[handler]
     async fn hop(&mut self, h: Hop, _r: &ActorRef<Self>) -> u64 {
+        for i in 0..h.1 {
+            std::hint::black_box(i);
+        }
         match (&self.next, h.0) {
-            (Some(n), d) if d > 0 => match n.ask(Hop(d - 1)).await {
+            (Some(n), d) if d > 0 => match n.ask(Hop(d - 1, 0)).await {
                 Ok(v) => v + 1,
                 Err(_) => 1000,
             },
@@ -899,11 +903,12 @@ fn scenario_dd_mt(seed: u64) {
             _ => 1,
         };
         let spins = if variant == 2 { 0 } else { rng.below(3) };
+        let busy = if variant == 2 { rng.below(300) } else { 0 };
         tasks.push(rt.spawn(async move {
             for _ in 0..spins {
                 tokio::task::yield_now().await;
             }
-            match entry.ask(Hop(depth)).await {
+            match entry.ask(Hop(depth, busy)).await {
                 Ok(v) => format!("ok{v}"),
                 Err(e) => err_kind(&e).to_string(),
             }
